@@ -511,13 +511,25 @@ func (e *Engine) coverReturns(cfg SolverCfg) []string {
 		keys = append(keys, k)
 	}
 	sort.Strings(keys)
-	if len(keys) > 8 { // evenly spaced sample of the return sites
+	var loopKeys, retKeys []string
+	for _, k := range keys {
+		if strings.HasPrefix(k, "loop") {
+			loopKeys = append(loopKeys, k)
+		} else {
+			retKeys = append(retKeys, k)
+		}
+	}
+	if len(retKeys) > 8 { // evenly spaced sample of the return sites
 		var sm []string
 		for i := 0; i < 8; i++ {
-			sm = append(sm, keys[i*len(keys)/8])
+			sm = append(sm, retKeys[i*len(retKeys)/8])
 		}
-		keys = sm
+		retKeys = sm
 	}
+	if len(loopKeys) > 12 {
+		loopKeys = loopKeys[:12]
+	}
+	keys = append(retKeys, loopKeys...)
 	for _, k := range keys {
 		ok := false
 		// one query: the disjunction of (a sample of) the path conditions reaching this return
